@@ -308,6 +308,13 @@ class EngineBase:
                 invs += inv
             st, r = self.alloc(st, "list", None, items=tuple(items))
             return st, r, invs
+        if k == "frame1":
+            # an RdfStreamFrame whose row list starts with one (symbolic) row followed by an opaque rest
+            st, fr, invs = self.make_msg(st, "RdfStreamFrame", name)
+            st, row, inv2 = self.make_msg(st, "RdfStreamRow", name + ".rows0")
+            lst = st.obj(fr).get("rows")
+            st = st.heap_set(lst, "items", (row,) + st.obj(lst).get("items"))
+            return st, fr, list(invs) + list(inv2)
         if k == "rows":
             seg = Seg(V.fresh_of_sort(name, V.SegSort), name)
             st, r = self.alloc(st, "list", None, items=(seg,))
